@@ -537,7 +537,9 @@ impl ExecutionEngine {
                 if function_name == "CONCAT" {
                     // Decode all needed values first
                     let dict = database.dictionary.read().unwrap();
-                    let decoded_values: Vec<Vec<String>> = input_results
+                    // An unbound argument is an expression error: BIND then
+                    // leaves the target variable unbound for that solution.
+                    let decoded_values: Vec<Option<Vec<String>>> = input_results
                         .iter()
                         .map(|row| {
                             arguments
@@ -545,13 +547,10 @@ impl ExecutionEngine {
                                 .map(|arg| {
                                     let arg_stripped = Self::normalize_variable(arg);
                                     if Self::is_variable(arg) {
-                                        if let Some(&id) = row.get(arg_stripped) {
-                                            dict.decode(id).unwrap_or("").to_string()
-                                        } else {
-                                            String::new()
-                                        }
+                                        row.get(arg_stripped)
+                                            .map(|&id| dict.decode(id).unwrap_or("").to_string())
                                     } else {
-                                        arg.trim_matches('"').to_string()
+                                        Some(arg.trim_matches('"').to_string())
                                     }
                                 })
                                 .collect()
@@ -562,6 +561,9 @@ impl ExecutionEngine {
                     // Now encode the concatenated results
                     let mut dict_write = database.dictionary.write().unwrap();
                     for (row, decoded_row) in input_results.iter_mut().zip(decoded_values.iter()) {
+                        let Some(decoded_row) = decoded_row else {
+                            continue;
+                        };
                         let concatenated = decoded_row.join("");
                         let result_id = dict_write.encode(&concatenated);
                         row.insert(output_var.to_string(), result_id);
